@@ -22,3 +22,8 @@ def run(ctx):
     from vf.checks._rt import drive
     n = ctx.pick(300, 20000)
     drive(ctx, "pb", n, lambda i: [4], fixture_precisions=(4,))
+
+    # ambient workload (thorough tier): the repository's own tests with the contracts installed
+    if not ctx.quick and ctx.shard == 0 and ctx.only is None:
+        from vf.ambient import run_ambient
+        run_ambient(ctx, ['roundtrip'])
